@@ -89,15 +89,15 @@ func (l *logger) Errorf(format string, v ...any) {
 func (l *logger) Panic(v ...any) {
 	if LvPanic >= l.lv {
 		l.print(LvPanic, v...)
-		panic(v)
 	}
+	panic(v)
 }
 
 func (l *logger) Panicf(format string, v ...any) {
 	if LvPanic >= l.lv {
 		l.printf(LvPanic, format, v...)
-		panic(fmt.Sprintf(format, v...))
 	}
+	panic(fmt.Sprintf(format, v...))
 }
 
 func (l *logger) Fatal(v ...any) {
